@@ -16,7 +16,7 @@ from ..loader import AnalysisError, unparse, call_name
 from ..dataflow import target_names
 from ..cfg import atomic_facts
 
-TECHNIQUE = ('static analysis: token sites (loops and comprehensions over any expression denoting the token stream of the text argument, through helpers and caches) with emissions normalised to token type / token text and guarded by branch-outcome facts; single-pass structure; classification of all str.replace call sites in the package; per-entry renaming loops')
+TECHNIQUE = ('static analysis: token sites (loops and comprehensions over any expression denoting the token stream of the text argument, through helpers and caches) with emissions normalised to token type / token text and guarded by branch-outcome facts; single-pass structure; classification of all str.replace call sites in the package; per-entry renaming loops; the unchanged-return clause of C05.R1 recorded as R2')
 EXPLANATION = (
     'The emission of a replacement token must be control-dependent on a NAME-type test conjoined with an exact match of the '
     'token text (== target / membership in the lookup dict); every other token is emitted unchanged; the result list is '
@@ -670,7 +670,7 @@ def run(prog, check):
         b05 = Borrowed(check, lambda rule, key: rule == 'C05.R1' and key.endswith('::unchanged-return'), 'C13.R2',
                        "a text using the second of two requested names: it must come back renamed")
         b05._borrowing = True
-        _c05.run(prog, b05)
+        b05.run_lender(_c05, prog)
     check.floor('C13.R5', 2)
     check.floor('C13.R1', 5)
     check.floor('C13.R2', 2)
